@@ -1,0 +1,497 @@
+//go:build verif && !notmono && !codec.notmono
+
+// Verification hooks for C06 (compiled only with -tags verif, default monomorphised build). Add-only:
+// read-only snapshots of the per-Handle copy-on-write caches, taken by the harness after all goroutines
+// have finished. Nothing here is referenced by the library itself.
+
+package codec
+
+import "reflect"
+
+// VerifCacheEntry is one published cache entry: the key it is filed under and the rtid recorded inside
+// the value it maps to (typeInfo.rtid, or fn.i.ti.rtid for the function caches).
+type VerifCacheEntry struct {
+	Rtid  uintptr
+	Inner uintptr
+	Nil   bool // the value pointer (or its typeInfo) is nil
+}
+
+// VerifCache is the slice currently published for one cache of a Handle.
+type VerifCache struct {
+	Name    string
+	Entries []VerifCacheEntry
+}
+
+// VerifRtid is the cache key of a type.
+func VerifRtid(t reflect.Type) uintptr { return rt2id(t) }
+
+// VerifHandleInited reports the one-time-init flag.
+func VerifHandleInited(h Handle) bool { return h.getBasicHandle().isInited() }
+
+func verifTiEntry(rtid uintptr, ti *typeInfo) VerifCacheEntry {
+	if ti == nil {
+		return VerifCacheEntry{Rtid: rtid, Nil: true}
+	}
+	return VerifCacheEntry{Rtid: rtid, Inner: ti.rtid}
+}
+
+// VerifCacheSnapshot returns the published TypeInfos slice and the eight rtidFns slices of h.
+func VerifCacheSnapshot(h Handle) (out []VerifCache) {
+	bh := h.getBasicHandle()
+	ti := VerifCache{Name: "typeinfos"}
+	if sp := bh.typeInfos().infos.Load(); sp != nil {
+		for _, e := range *sp {
+			ti.Entries = append(ti.Entries, verifTiEntry(e.rtid, e.ti))
+		}
+	}
+	out = append(out, ti)
+	add := func(name string, es []VerifCacheEntry) { out = append(out, VerifCache{Name: name, Entries: es}) }
+	switch h.(type) {
+	case *JsonHandle:
+		{
+			var es []VerifCacheEntry
+			for _, e := range (helperEncDriverJsonBytes{}).encFromRtidFnSlice(&bh.rtidFnsEncBytes) {
+				if e.fn == nil {
+					es = append(es, VerifCacheEntry{Rtid: e.rtid, Nil: true})
+				} else {
+					es = append(es, verifTiEntry(e.rtid, e.fn.i.ti))
+				}
+			}
+			add("encBytes", es)
+		}
+		{
+			var es []VerifCacheEntry
+			for _, e := range (helperEncDriverJsonBytes{}).encFromRtidFnSlice(&bh.rtidFnsEncNoExtBytes) {
+				if e.fn == nil {
+					es = append(es, VerifCacheEntry{Rtid: e.rtid, Nil: true})
+				} else {
+					es = append(es, verifTiEntry(e.rtid, e.fn.i.ti))
+				}
+			}
+			add("encNoExtBytes", es)
+		}
+		{
+			var es []VerifCacheEntry
+			for _, e := range (helperEncDriverJsonIO{}).encFromRtidFnSlice(&bh.rtidFnsEncIO) {
+				if e.fn == nil {
+					es = append(es, VerifCacheEntry{Rtid: e.rtid, Nil: true})
+				} else {
+					es = append(es, verifTiEntry(e.rtid, e.fn.i.ti))
+				}
+			}
+			add("encIO", es)
+		}
+		{
+			var es []VerifCacheEntry
+			for _, e := range (helperEncDriverJsonIO{}).encFromRtidFnSlice(&bh.rtidFnsEncNoExtIO) {
+				if e.fn == nil {
+					es = append(es, VerifCacheEntry{Rtid: e.rtid, Nil: true})
+				} else {
+					es = append(es, verifTiEntry(e.rtid, e.fn.i.ti))
+				}
+			}
+			add("encNoExtIO", es)
+		}
+		{
+			var es []VerifCacheEntry
+			for _, e := range (helperDecDriverJsonBytes{}).decFromRtidFnSlice(&bh.rtidFnsDecBytes) {
+				if e.fn == nil {
+					es = append(es, VerifCacheEntry{Rtid: e.rtid, Nil: true})
+				} else {
+					es = append(es, verifTiEntry(e.rtid, e.fn.i.ti))
+				}
+			}
+			add("decBytes", es)
+		}
+		{
+			var es []VerifCacheEntry
+			for _, e := range (helperDecDriverJsonBytes{}).decFromRtidFnSlice(&bh.rtidFnsDecNoExtBytes) {
+				if e.fn == nil {
+					es = append(es, VerifCacheEntry{Rtid: e.rtid, Nil: true})
+				} else {
+					es = append(es, verifTiEntry(e.rtid, e.fn.i.ti))
+				}
+			}
+			add("decNoExtBytes", es)
+		}
+		{
+			var es []VerifCacheEntry
+			for _, e := range (helperDecDriverJsonIO{}).decFromRtidFnSlice(&bh.rtidFnsDecIO) {
+				if e.fn == nil {
+					es = append(es, VerifCacheEntry{Rtid: e.rtid, Nil: true})
+				} else {
+					es = append(es, verifTiEntry(e.rtid, e.fn.i.ti))
+				}
+			}
+			add("decIO", es)
+		}
+		{
+			var es []VerifCacheEntry
+			for _, e := range (helperDecDriverJsonIO{}).decFromRtidFnSlice(&bh.rtidFnsDecNoExtIO) {
+				if e.fn == nil {
+					es = append(es, VerifCacheEntry{Rtid: e.rtid, Nil: true})
+				} else {
+					es = append(es, verifTiEntry(e.rtid, e.fn.i.ti))
+				}
+			}
+			add("decNoExtIO", es)
+		}
+	case *CborHandle:
+		{
+			var es []VerifCacheEntry
+			for _, e := range (helperEncDriverCborBytes{}).encFromRtidFnSlice(&bh.rtidFnsEncBytes) {
+				if e.fn == nil {
+					es = append(es, VerifCacheEntry{Rtid: e.rtid, Nil: true})
+				} else {
+					es = append(es, verifTiEntry(e.rtid, e.fn.i.ti))
+				}
+			}
+			add("encBytes", es)
+		}
+		{
+			var es []VerifCacheEntry
+			for _, e := range (helperEncDriverCborBytes{}).encFromRtidFnSlice(&bh.rtidFnsEncNoExtBytes) {
+				if e.fn == nil {
+					es = append(es, VerifCacheEntry{Rtid: e.rtid, Nil: true})
+				} else {
+					es = append(es, verifTiEntry(e.rtid, e.fn.i.ti))
+				}
+			}
+			add("encNoExtBytes", es)
+		}
+		{
+			var es []VerifCacheEntry
+			for _, e := range (helperEncDriverCborIO{}).encFromRtidFnSlice(&bh.rtidFnsEncIO) {
+				if e.fn == nil {
+					es = append(es, VerifCacheEntry{Rtid: e.rtid, Nil: true})
+				} else {
+					es = append(es, verifTiEntry(e.rtid, e.fn.i.ti))
+				}
+			}
+			add("encIO", es)
+		}
+		{
+			var es []VerifCacheEntry
+			for _, e := range (helperEncDriverCborIO{}).encFromRtidFnSlice(&bh.rtidFnsEncNoExtIO) {
+				if e.fn == nil {
+					es = append(es, VerifCacheEntry{Rtid: e.rtid, Nil: true})
+				} else {
+					es = append(es, verifTiEntry(e.rtid, e.fn.i.ti))
+				}
+			}
+			add("encNoExtIO", es)
+		}
+		{
+			var es []VerifCacheEntry
+			for _, e := range (helperDecDriverCborBytes{}).decFromRtidFnSlice(&bh.rtidFnsDecBytes) {
+				if e.fn == nil {
+					es = append(es, VerifCacheEntry{Rtid: e.rtid, Nil: true})
+				} else {
+					es = append(es, verifTiEntry(e.rtid, e.fn.i.ti))
+				}
+			}
+			add("decBytes", es)
+		}
+		{
+			var es []VerifCacheEntry
+			for _, e := range (helperDecDriverCborBytes{}).decFromRtidFnSlice(&bh.rtidFnsDecNoExtBytes) {
+				if e.fn == nil {
+					es = append(es, VerifCacheEntry{Rtid: e.rtid, Nil: true})
+				} else {
+					es = append(es, verifTiEntry(e.rtid, e.fn.i.ti))
+				}
+			}
+			add("decNoExtBytes", es)
+		}
+		{
+			var es []VerifCacheEntry
+			for _, e := range (helperDecDriverCborIO{}).decFromRtidFnSlice(&bh.rtidFnsDecIO) {
+				if e.fn == nil {
+					es = append(es, VerifCacheEntry{Rtid: e.rtid, Nil: true})
+				} else {
+					es = append(es, verifTiEntry(e.rtid, e.fn.i.ti))
+				}
+			}
+			add("decIO", es)
+		}
+		{
+			var es []VerifCacheEntry
+			for _, e := range (helperDecDriverCborIO{}).decFromRtidFnSlice(&bh.rtidFnsDecNoExtIO) {
+				if e.fn == nil {
+					es = append(es, VerifCacheEntry{Rtid: e.rtid, Nil: true})
+				} else {
+					es = append(es, verifTiEntry(e.rtid, e.fn.i.ti))
+				}
+			}
+			add("decNoExtIO", es)
+		}
+	case *MsgpackHandle:
+		{
+			var es []VerifCacheEntry
+			for _, e := range (helperEncDriverMsgpackBytes{}).encFromRtidFnSlice(&bh.rtidFnsEncBytes) {
+				if e.fn == nil {
+					es = append(es, VerifCacheEntry{Rtid: e.rtid, Nil: true})
+				} else {
+					es = append(es, verifTiEntry(e.rtid, e.fn.i.ti))
+				}
+			}
+			add("encBytes", es)
+		}
+		{
+			var es []VerifCacheEntry
+			for _, e := range (helperEncDriverMsgpackBytes{}).encFromRtidFnSlice(&bh.rtidFnsEncNoExtBytes) {
+				if e.fn == nil {
+					es = append(es, VerifCacheEntry{Rtid: e.rtid, Nil: true})
+				} else {
+					es = append(es, verifTiEntry(e.rtid, e.fn.i.ti))
+				}
+			}
+			add("encNoExtBytes", es)
+		}
+		{
+			var es []VerifCacheEntry
+			for _, e := range (helperEncDriverMsgpackIO{}).encFromRtidFnSlice(&bh.rtidFnsEncIO) {
+				if e.fn == nil {
+					es = append(es, VerifCacheEntry{Rtid: e.rtid, Nil: true})
+				} else {
+					es = append(es, verifTiEntry(e.rtid, e.fn.i.ti))
+				}
+			}
+			add("encIO", es)
+		}
+		{
+			var es []VerifCacheEntry
+			for _, e := range (helperEncDriverMsgpackIO{}).encFromRtidFnSlice(&bh.rtidFnsEncNoExtIO) {
+				if e.fn == nil {
+					es = append(es, VerifCacheEntry{Rtid: e.rtid, Nil: true})
+				} else {
+					es = append(es, verifTiEntry(e.rtid, e.fn.i.ti))
+				}
+			}
+			add("encNoExtIO", es)
+		}
+		{
+			var es []VerifCacheEntry
+			for _, e := range (helperDecDriverMsgpackBytes{}).decFromRtidFnSlice(&bh.rtidFnsDecBytes) {
+				if e.fn == nil {
+					es = append(es, VerifCacheEntry{Rtid: e.rtid, Nil: true})
+				} else {
+					es = append(es, verifTiEntry(e.rtid, e.fn.i.ti))
+				}
+			}
+			add("decBytes", es)
+		}
+		{
+			var es []VerifCacheEntry
+			for _, e := range (helperDecDriverMsgpackBytes{}).decFromRtidFnSlice(&bh.rtidFnsDecNoExtBytes) {
+				if e.fn == nil {
+					es = append(es, VerifCacheEntry{Rtid: e.rtid, Nil: true})
+				} else {
+					es = append(es, verifTiEntry(e.rtid, e.fn.i.ti))
+				}
+			}
+			add("decNoExtBytes", es)
+		}
+		{
+			var es []VerifCacheEntry
+			for _, e := range (helperDecDriverMsgpackIO{}).decFromRtidFnSlice(&bh.rtidFnsDecIO) {
+				if e.fn == nil {
+					es = append(es, VerifCacheEntry{Rtid: e.rtid, Nil: true})
+				} else {
+					es = append(es, verifTiEntry(e.rtid, e.fn.i.ti))
+				}
+			}
+			add("decIO", es)
+		}
+		{
+			var es []VerifCacheEntry
+			for _, e := range (helperDecDriverMsgpackIO{}).decFromRtidFnSlice(&bh.rtidFnsDecNoExtIO) {
+				if e.fn == nil {
+					es = append(es, VerifCacheEntry{Rtid: e.rtid, Nil: true})
+				} else {
+					es = append(es, verifTiEntry(e.rtid, e.fn.i.ti))
+				}
+			}
+			add("decNoExtIO", es)
+		}
+	case *BincHandle:
+		{
+			var es []VerifCacheEntry
+			for _, e := range (helperEncDriverBincBytes{}).encFromRtidFnSlice(&bh.rtidFnsEncBytes) {
+				if e.fn == nil {
+					es = append(es, VerifCacheEntry{Rtid: e.rtid, Nil: true})
+				} else {
+					es = append(es, verifTiEntry(e.rtid, e.fn.i.ti))
+				}
+			}
+			add("encBytes", es)
+		}
+		{
+			var es []VerifCacheEntry
+			for _, e := range (helperEncDriverBincBytes{}).encFromRtidFnSlice(&bh.rtidFnsEncNoExtBytes) {
+				if e.fn == nil {
+					es = append(es, VerifCacheEntry{Rtid: e.rtid, Nil: true})
+				} else {
+					es = append(es, verifTiEntry(e.rtid, e.fn.i.ti))
+				}
+			}
+			add("encNoExtBytes", es)
+		}
+		{
+			var es []VerifCacheEntry
+			for _, e := range (helperEncDriverBincIO{}).encFromRtidFnSlice(&bh.rtidFnsEncIO) {
+				if e.fn == nil {
+					es = append(es, VerifCacheEntry{Rtid: e.rtid, Nil: true})
+				} else {
+					es = append(es, verifTiEntry(e.rtid, e.fn.i.ti))
+				}
+			}
+			add("encIO", es)
+		}
+		{
+			var es []VerifCacheEntry
+			for _, e := range (helperEncDriverBincIO{}).encFromRtidFnSlice(&bh.rtidFnsEncNoExtIO) {
+				if e.fn == nil {
+					es = append(es, VerifCacheEntry{Rtid: e.rtid, Nil: true})
+				} else {
+					es = append(es, verifTiEntry(e.rtid, e.fn.i.ti))
+				}
+			}
+			add("encNoExtIO", es)
+		}
+		{
+			var es []VerifCacheEntry
+			for _, e := range (helperDecDriverBincBytes{}).decFromRtidFnSlice(&bh.rtidFnsDecBytes) {
+				if e.fn == nil {
+					es = append(es, VerifCacheEntry{Rtid: e.rtid, Nil: true})
+				} else {
+					es = append(es, verifTiEntry(e.rtid, e.fn.i.ti))
+				}
+			}
+			add("decBytes", es)
+		}
+		{
+			var es []VerifCacheEntry
+			for _, e := range (helperDecDriverBincBytes{}).decFromRtidFnSlice(&bh.rtidFnsDecNoExtBytes) {
+				if e.fn == nil {
+					es = append(es, VerifCacheEntry{Rtid: e.rtid, Nil: true})
+				} else {
+					es = append(es, verifTiEntry(e.rtid, e.fn.i.ti))
+				}
+			}
+			add("decNoExtBytes", es)
+		}
+		{
+			var es []VerifCacheEntry
+			for _, e := range (helperDecDriverBincIO{}).decFromRtidFnSlice(&bh.rtidFnsDecIO) {
+				if e.fn == nil {
+					es = append(es, VerifCacheEntry{Rtid: e.rtid, Nil: true})
+				} else {
+					es = append(es, verifTiEntry(e.rtid, e.fn.i.ti))
+				}
+			}
+			add("decIO", es)
+		}
+		{
+			var es []VerifCacheEntry
+			for _, e := range (helperDecDriverBincIO{}).decFromRtidFnSlice(&bh.rtidFnsDecNoExtIO) {
+				if e.fn == nil {
+					es = append(es, VerifCacheEntry{Rtid: e.rtid, Nil: true})
+				} else {
+					es = append(es, verifTiEntry(e.rtid, e.fn.i.ti))
+				}
+			}
+			add("decNoExtIO", es)
+		}
+	case *SimpleHandle:
+		{
+			var es []VerifCacheEntry
+			for _, e := range (helperEncDriverSimpleBytes{}).encFromRtidFnSlice(&bh.rtidFnsEncBytes) {
+				if e.fn == nil {
+					es = append(es, VerifCacheEntry{Rtid: e.rtid, Nil: true})
+				} else {
+					es = append(es, verifTiEntry(e.rtid, e.fn.i.ti))
+				}
+			}
+			add("encBytes", es)
+		}
+		{
+			var es []VerifCacheEntry
+			for _, e := range (helperEncDriverSimpleBytes{}).encFromRtidFnSlice(&bh.rtidFnsEncNoExtBytes) {
+				if e.fn == nil {
+					es = append(es, VerifCacheEntry{Rtid: e.rtid, Nil: true})
+				} else {
+					es = append(es, verifTiEntry(e.rtid, e.fn.i.ti))
+				}
+			}
+			add("encNoExtBytes", es)
+		}
+		{
+			var es []VerifCacheEntry
+			for _, e := range (helperEncDriverSimpleIO{}).encFromRtidFnSlice(&bh.rtidFnsEncIO) {
+				if e.fn == nil {
+					es = append(es, VerifCacheEntry{Rtid: e.rtid, Nil: true})
+				} else {
+					es = append(es, verifTiEntry(e.rtid, e.fn.i.ti))
+				}
+			}
+			add("encIO", es)
+		}
+		{
+			var es []VerifCacheEntry
+			for _, e := range (helperEncDriverSimpleIO{}).encFromRtidFnSlice(&bh.rtidFnsEncNoExtIO) {
+				if e.fn == nil {
+					es = append(es, VerifCacheEntry{Rtid: e.rtid, Nil: true})
+				} else {
+					es = append(es, verifTiEntry(e.rtid, e.fn.i.ti))
+				}
+			}
+			add("encNoExtIO", es)
+		}
+		{
+			var es []VerifCacheEntry
+			for _, e := range (helperDecDriverSimpleBytes{}).decFromRtidFnSlice(&bh.rtidFnsDecBytes) {
+				if e.fn == nil {
+					es = append(es, VerifCacheEntry{Rtid: e.rtid, Nil: true})
+				} else {
+					es = append(es, verifTiEntry(e.rtid, e.fn.i.ti))
+				}
+			}
+			add("decBytes", es)
+		}
+		{
+			var es []VerifCacheEntry
+			for _, e := range (helperDecDriverSimpleBytes{}).decFromRtidFnSlice(&bh.rtidFnsDecNoExtBytes) {
+				if e.fn == nil {
+					es = append(es, VerifCacheEntry{Rtid: e.rtid, Nil: true})
+				} else {
+					es = append(es, verifTiEntry(e.rtid, e.fn.i.ti))
+				}
+			}
+			add("decNoExtBytes", es)
+		}
+		{
+			var es []VerifCacheEntry
+			for _, e := range (helperDecDriverSimpleIO{}).decFromRtidFnSlice(&bh.rtidFnsDecIO) {
+				if e.fn == nil {
+					es = append(es, VerifCacheEntry{Rtid: e.rtid, Nil: true})
+				} else {
+					es = append(es, verifTiEntry(e.rtid, e.fn.i.ti))
+				}
+			}
+			add("decIO", es)
+		}
+		{
+			var es []VerifCacheEntry
+			for _, e := range (helperDecDriverSimpleIO{}).decFromRtidFnSlice(&bh.rtidFnsDecNoExtIO) {
+				if e.fn == nil {
+					es = append(es, VerifCacheEntry{Rtid: e.rtid, Nil: true})
+				} else {
+					es = append(es, verifTiEntry(e.rtid, e.fn.i.ti))
+				}
+			}
+			add("decNoExtIO", es)
+		}
+	}
+	return
+}
